@@ -6,7 +6,8 @@ COMMON_NOTE = ("Trusted base: Lean 4.33 kernel; axioms propext / Classical.choic
                "native_decide, bv_decide or custom axioms); tools/translate.py (dumps the run-time tables and constants of the working tree into the Lean model; "
                "its witnesses are untrusted and kernel-checked); the hand-written L2 model lean/HpackVerif/Impl, tied to the Python code by the correspondence "
                "streams of every run (model and implementation executed on the same operations, replies compared one by one); the L0 reading of RFC 7541 and the frozen "
-               "Appendix A/B tables; CPython's int/bytes/deque/dict semantics as modelled (DESIGN.md 5). ")
+               "Appendix A/B tables; CPython's int/bytes/deque/dict semantics as modelled (DESIGN.md 5); where source ties are reported (evidence coverage.source_tie): "
+               "tools/py2lean.py and lean/HpackVerif/Src/Py.lean (the latter compared with the interpreter on generated arguments on every run). ")
 P = {
  'C01': ("Theorem Props.C01.roundtrip (induction over arbitrary connection histories of size assignments and blocks, from a fresh Encoder/Decoder pair, invariant ConnInv): every block decodes to exactly the list encoded; text mode by Props.C01.text_mode_same.",
          "Hypothesis OpsOK = the property's own proviso (decoder permits the signalled sizes, list within the decoder's limit) plus integers within the implementation cap.", "6/C01"),
@@ -39,7 +40,7 @@ P = {
  'C18': ("Theorems Props.C18.encoder_depends_on_norm, plain_forms, sensitive_forms, text_is_utf8, dict_order_stable, dict_is_its_items, modes_same_state, text_ok_implies_raw, raw_vs_text. The model's encodeApi is encode after norm by definition; that the real Encoder.encode factors this way is established by the api correspondence stream (all form assignments) and the forms judge.",
          "str objects are modelled as sequences of Unicode scalar values (lone surrogates, for which .encode raises, are outside the model); non-str/bytes values go through str() and are only probed (C20).", "6/C18"),
  'C19': ("Theorems Props.C19.indexed (for every reachable encoder: a field equal to an addressable entry, empty value included, is emitted as one indexed field resolving to it, table unchanged) and all_indexed (a block of addressable fields is emitted entirely as indexed fields).", "", "6/C19"),
- 'C20': ("Theorem Props.C20.isolated (frame theorem: in every interleaving of operations on any number of instances, outputs and final state of an instance equal those of running its operations alone), earlier_instances_irrelevant, static_constant. The model has no shared mutable state by construction; that the implementation has none, and does not depend on logging level or hash randomisation, is established by the isolation probe (isolated / interleaved / reversed / warm / debug-logging runs under several PYTHONHASHSEED values, digests of all shared tables).",
+ 'C20': ("Theorem Props.C20.isolated (frame theorem: in every interleaving of operations on any number of instances, outputs and final state of an instance equal those of running its operations alone), earlier_instances_irrelevant, static_constant. The model has no shared mutable state by construction; that the implementation has none, and does not depend on logging level or hash randomisation, is established by the isolation probe (isolated / interleaved / reversed / warm / debug-logging / crowded-process runs under several PYTHONHASHSEED values, first use in a process against later use per well-known header name, four threads with their own instances against sequential runs, digests of all shared tables).",
          "Determinism and isolation of the implementation are validated, not proved: the theorem says what follows once there is no shared state.", "6/C20"),
 }
 checks = []
